@@ -12,3 +12,33 @@ Theorem C09_line_index_prefix : forall pre k nls p,
   line_index (pre ++ map (N.add k) nls) (k + p) = N.of_nat (length pre) + line_index nls p.
 Proof. exact line_index_prefix. Qed.
 Print Assumptions C09_line_index_prefix.
+
+From V Require Import Pipeline.DirectiveProofs Pipeline.PipelineProofs Pipeline.PipelineTheorems
+  Pipeline.WellFormed Pipeline.OrderIndep Pipeline.Shift.
+
+(* Prepending k bytes that contain |pre_nls| line breaks and only comments that are not
+   directives translates every output range by exactly k bytes and changes nothing else:
+   same diagnostics, same order, same suppression, same accounting -- for every rule set,
+   raw diagnostic list, external result and hash order. *)
+Theorem C09_pipeline_shift_equivariant : forall o orc orc' f k pre_c pre_nls rd ext,
+  oracle_ok orc -> oracle_ok orc' ->
+  wf_file f -> wf_file (shift_file k pre_c pre_nls f) -> file_word o <> line_word o ->
+  Forall (fun c => parse_dir (file_word o) c = None) pre_c ->
+  Forall (fun c => parse_dir (line_word o) c = None) pre_c ->
+  Forall (fun x => x < k) pre_nls ->
+  lint_inner o orc' (shift_file k pre_c pre_nls f) (map (shift_diag k) rd) (shift_ext k ext)
+  = map (shift_diag k) (lint_inner o orc f rd ext).
+Proof. exact pipeline_shift_equivariant. Qed.
+Print Assumptions C09_pipeline_shift_equivariant.
+
+Theorem C09_shift_file_wf : forall k pre_c pre_nls f,
+  wf_file f -> NoDup (map c_start pre_c) -> Forall (fun c => c_start c < k) pre_c ->
+  wf_file (shift_file k pre_c pre_nls f).
+Proof. exact shift_file_wf. Qed.
+Print Assumptions C09_shift_file_wf.
+
+(* the sort commutes with translation because the key order is translation invariant *)
+Theorem C09_sort_key_translation_invariant : forall k a b,
+  diag_leb (shift_diag k a) (shift_diag k b) = diag_leb a b.
+Proof. exact diag_leb_shift. Qed.
+Print Assumptions C09_sort_key_translation_invariant.
